@@ -249,6 +249,11 @@ func (x *Exec) staticCallEffects(f *ssa.Function, cc *ssa.CallCommon, e *Effects
 	case strings.HasPrefix(name, "(encoding/binary.littleEndian).Put"):
 		e.Classes[bytesClass] = true
 		return
+	case strings.HasPrefix(name, "(encoding/binary.littleEndian).Uint"), strings.HasPrefix(name, "math."),
+		strings.HasPrefix(name, "strconv."), strings.HasPrefix(name, "strings."), name == "bytes.Equal",
+		name == "errors.New", name == "fmt.Sprintf", name == "fmt.Errorf", name == "fmt.Sprint",
+		strings.HasPrefix(name, "unicode/utf8."), strings.HasPrefix(name, "math/bits."):
+		return // known not to write through their arguments
 	case name == "(*sync.Once).Do":
 		if mc, ok := cc.Args[1].(*ssa.MakeClosure); ok {
 			x.fnEffects(mc.Fn.(*ssa.Function), e, visited)
